@@ -107,7 +107,7 @@ Qed.
 (* a fresh half of a valid mixed batch validates *)
 Lemma fresh_valid b (cr : bool) y :
   AR.validate_batch A (sb b) = AR.ROk -> sb_scc b = 200 ->
-  In y (fresh amt false (if cr then 220 else 225) (sb_ident b) (filter (goes amt (dir_of cr)) (sb_entries b))) ->
+  In y (fresh amt false (if cr then 220 else 225) (sb_num b) (sb_ident b) (filter (goes amt (dir_of cr)) (sb_entries b))) ->
   AR.validate_batch A (sb y) = AR.ROk.
 Proof.
   intros Hv Hscc Hy. set (t := dir_of cr) in *. set (es := filter (goes amt t) (sb_entries b)) in *.
@@ -128,8 +128,8 @@ Proof.
     apply andb_prop in Hk as [_ Hss]. unfold AT.same_set in Hss. apply andb_prop in Hss as [_ Hss].
     rewrite forallb_forall in Hss. apply Hss. destruct cr; cbn [In]; auto. }
   (* the half is a tabulated batch *)
-  assert (Etab : sb (mksb false (if cr then 220 else 225) 1 (sb_ident b) (sum_dir amt TCredit es) (sum_dir amt TDebit es) es)
-                 = tabulate A AR.KStd (if cr then 220 else 225) (sp (sb_ident b)) 1 (map se es)).
+  assert (Etab : sb (mksb false (if cr then 220 else 225) (sb_num b) (sb_ident b) (sum_dir amt TCredit es) (sum_dir amt TDebit es) es)
+                 = tabulate A AR.KStd (if cr then 220 else 225) (sp (sb_ident b)) (sb_num b) (map se es)).
   { unfold s_batch, s_batch_k, tabulate, tab_ctl. cbn [sb_scc sb_num sb_ident sb_credit sb_debit sb_entries]. now rewrite Sc, Sd. }
   rewrite Etab. apply entries_in_valid.
   - intros E. apply map_eq_nil in E. contradiction.
